@@ -9,4 +9,6 @@ PROPERTY FirstNoiseSetsParams
 PROPERTY LaterNoiseReestimates
 PROPERTY ZeroDataResets
 PROPERTY SignalLeavesEstimate
+PROPERTY UpdateKeepsRealised
+PROPERTY AddNoiseAddsInQuadrature
 CHECK_DEADLOCK FALSE
